@@ -39,7 +39,7 @@ func c09Profiles() []string {
 }
 
 var c09DocCache []string
-var c09DocNames = []string{"plain", "nested", "levels", "lexical", "empty-graph", "not-json", "jsonld-error", "large-128", "amf-compact", "huge-600"}
+var c09DocNames = []string{"plain", "nested", "levels", "lexical", "empty-graph", "not-json", "jsonld-error", "large-128", "amf-compact", "huge-600", "two-classes-130-130", "two-classes-170-130", "two-classes-130-170"}
 
 const c09Alphabet = 9 // the search alphabet; the huge document (report > 1 MiB) only occurs in the Exact histories
 
@@ -50,7 +50,20 @@ func c09Docs() []string {
 		for i := 0; i < 600; i++ {
 			huge.Add(nid(i), EX+"T").P(EX+"p2", "not in the list").P(EX+"name", "n").P(EX+"num", 0)
 		}
-		c09DocCache = []string{s[0].Data, s[1].Data, s[3].Data, s[2].Data, `{}`, `{"@graph":[`, `{"@id":1}`, TruthTableGraph(7, false).FlatJSONLD(), s[5].Data, huge.FlatJSONLD()}
+		two := func(a, b int) string {
+			g := &Graph{}
+			for i := 0; i < a; i++ {
+				n := g.Add(fmt.Sprintf("%sa%d", EX, i), EX+"T")
+				if i%2 == 0 {
+					n.P(EX+"p1", "v")
+				}
+			}
+			for i := 0; i < b; i++ {
+				g.Add(fmt.Sprintf("%sb%d", EX, i), EX+"U").P(EX+"p2", "z")
+			}
+			return g.FlatJSONLD()
+		}
+		c09DocCache = []string{s[0].Data, s[1].Data, s[3].Data, s[2].Data, `{}`, `{"@graph":[`, `{"@id":1}`, TruthTableGraph(7, false).FlatJSONLD(), s[5].Data, huge.FlatJSONLD(), two(130, 130), two(170, 130), two(130, 170)}
 	}
 	return c09DocCache
 }
@@ -81,6 +94,10 @@ func c09Gen(tier string, emit func(c09Case)) {
 		for x := 0; x < nd; x++ {
 			emit(c09Case{Profile: p, Prefix: []int{9, x, 9, x}, Exact: true})
 			emit(c09Case{Profile: p, Prefix: []int{x, 9, x, x}, Exact: true})
+		}
+		// documents whose per-class node counts cross 128 and grow or shrink from one call to the next
+		for _, h := range [][]int{{10, 11, 10, 12}, {11, 10, 12, 11}, {0, 10, 12, 0, 11}, {12, 11, 10, 7, 10}} {
+			emit(c09Case{Profile: p, Prefix: h, Exact: true})
 		}
 	}
 }
@@ -126,9 +143,24 @@ func c09Run(c *Ctx, cs c09Case) {
 			c.Violate("C09 profile does not compile: "+firstLine(cr.ErrString()), prof, nil)
 			return
 		}
+		type kept struct {
+			report string // as returned
+			clone  string // private copy of its bytes made immediately
+			at     int
+		}
+		var keptReports []kept
+		defer func() {
+			for _, k := range keptReports {
+				if k.report != k.clone {
+					c.Violate("C09 a report returned earlier changed after later validations (it aliases storage that is re-used)", fmt.Sprintf("profile %d history %s: the report returned at step %d no longer has the bytes it had then\n%s", cs.Profile, histString(h), k.at+1, firstDiff(k.clone, k.report)), c09Case{Profile: cs.Profile, Prefix: h, Exact: true})
+					break
+				}
+			}
+		}()
 		for i, d := range h {
 			r := ValidateCompiled(q, docs[d])
 			c.Eval(1)
+			keptReports = append(keptReports, kept{report: r.Report, clone: string(append([]byte(nil), r.Report...)), at: i})
 			hs := histString(h[:i+1])
 			if r.Panic != nil {
 				c.Violate("C09 panic at "+r.Panic.Sig(), fmt.Sprintf("profile %d history %s\n%s", cs.Profile, hs, r.Panic.Value), c09Case{Profile: cs.Profile, Prefix: h[:i+1], Depth: i + 1})
@@ -169,7 +201,9 @@ func c09Run(c *Ctx, cs c09Case) {
 		c.Count("states", int64(len(cs.Prefix)))
 		c.Count("transitions", int64(len(cs.Prefix)))
 		c.Count("traces_validated_against_impl", int64(len(cs.Prefix)))
-		c.Max("largest_report_bytes", int64(len(refs[9].report)))
+		if len(refs) > 9 {
+			c.Max("largest_report_bytes", int64(len(refs[9].report)))
+		}
 		c.Nontrivial(fmt.Sprintf("%d/exact/%v", cs.Profile, cs.Prefix))
 		return
 	}
